@@ -253,6 +253,12 @@ class FlushBook(object):
                 # self-consistency of the model, not a verdict
                 rt.model_disagreements = getattr(rt, "model_disagreements", 0) + 1
                 cands.append(batch)
+            for c_ in cands:
+                # the documented default: (0, number of requests the batch holds) - answered or not
+                if hasattr(c_, "bid") and hasattr(c_, "kind") and rt.priority_of(c_) is None:
+                    rt.n_default_priority_checks = getattr(rt, "n_default_priority_checks", 0) + 1
+                    if c_.get_priority() != (0, len(c_.items)):
+                        rt.violation("default-priority-is-not-the-number-of-items-held", {"batch": c_.bid, "get_priority": c_.get_priority(), "items_held": len(c_.items)})
             if len(cands) >= 2:
                 prios = [(c.get_priority(), c) for c in cands]
                 mine = batch.get_priority()
